@@ -72,6 +72,12 @@ def build (evs : List Ev) : List Tree := (buildFrom 0 [] evs).reverse
 def buildFile (fileTy : Int) (n : Nat) (evs : List Ev) : Option Tree :=
   (build (evs ++ [⟨fileTy, 0, n⟩])).head?
 
+/-- `builder.build()` with the `fileNode` option AFTER the repair /verif/fixes/C20-end-offset-node.diff:
+the `File` node adopts every root (also empty nodes reported at the very end of the content). The
+harness probes the real builder at start-up and compares against this variant once it is repaired. -/
+def buildFileAll (fileTy : Int) (n : Nat) (evs : List Ev) : Tree :=
+  .node evs.length ⟨fileTy, 0, n⟩ (build evs)
+
 /-- `builder.build()` without `fileNode`: exactly one root is expected -/
 def buildSingle (evs : List Ev) : Option Tree :=
   match build evs with
